@@ -3,8 +3,13 @@ C06 — a rejected edit leaves every IR object exactly as it was.
 Model: `IrVerif/Model/Kernel.lean`.  Every public call is `validate ; mutate`, and `C06_atomic` says that
 the model's `step` returns the very world it was given whenever its outcome is `raised` — every field of
 every object, reference counters, initializer keys and order, name-authority counters and name sets.
+Round 4: `C06_rauw_many_atomic` (the multi-pair `convenience.replace_all_uses_with` as /repo has it since fix D82),
+`C06_view_atomic` (`GraphView`), and the model of the partial fix proposed for D83 (`Model/KernelFix.lean`).
 -/
 import IrVerif.Lemmas.KernelFaithful
+import IrVerif.Model.KernelView
+import IrVerif.Model.KernelFix
+import IrVerif.Lemmas.KernelOps
 namespace IrVerif.Kernel
 
 theorem ioMut_atomic (w : World) (g : Nat) (kd : IOKind) (m : IOMut) (k : String)
@@ -72,6 +77,24 @@ theorem C06_rename_values_atomic (w : World) (hw : WF w) (vs : List Nat) (names 
     · rename_i pairs hp
       simp only [hp] at h hl
       exact guardOp_atomic_of_late _ _ _ _ _ hl h
+
+/-- **C06_rauw_many_atomic** (round 4): `convenience.replace_all_uses_with` with several pairs, as /repo has it since
+fix D82 (commit c936126: every pair is checked against the ownership the pairs before it will have produced, then the
+loop runs — `rauwManyExact`, the function the harness compares with the code once its probe finds the real function
+all-or-nothing), is all or nothing: a length mismatch or a rejected pair at ANY position k — also one that only the
+interaction of the pairs makes unacceptable — leaves the whole world as it was.  (Was `rauwManyExact_atomic` in
+`Lemmas/KernelFaithful.lean`, not listed while the fix was only proposed.) -/
+theorem C06_rauw_many_atomic (w : World) (hw : WF w) (vs rs : List Nat) (rgo : Bool) (k : String)
+    (h : (stepConv w (.rauwManyExact vs rs rgo)).2 = .raised k) :
+    (stepConv w (.rauwManyExact vs rs rgo)).1 = w :=
+  rauwManyExact_atomic w hw vs rs rgo k h
+
+/-- **C06_view_atomic** (round 4): a rejected `GraphView(...)` (an initializer without a name) and a rejected edit of
+a view's plain initializer dict (`del view.initializers[absent]`) leave the kernel world AND every existing view
+exactly as they were. -/
+theorem C06_view_atomic (vw : VWorld) (op : ViewOp) (k : String) (h : (viewStep vw op).2 = .raised k) :
+    (viewStep vw op).1 = vw := by
+  cases op <;> simp only [viewStep, onView] at h ⊢ <;> (repeat' split) <;> first | rfl | simp_all
 
 /-- the hypothesis is needed: on an ill-formed world a check does fail after a write -/
 example : ∃ w op k, (step w op).2 = .raised k ∧ (step w op).1 ≠ w :=
@@ -161,7 +184,38 @@ example : (renameValues exW [4, 3] ["q", ""]).2 = .raised "ValueError|AttributeE
 /-- the composite calls are NOT claimed atomic: a later pair is rejected after the first was applied -/
 example : (rauwMany exW [0, 1] [4, 4] false).2 = .raised "ValueError" ∧ (rauwMany exW [0, 1] [4, 4] false).1 ≠ exW := by
   decide
+/-- since fix D82 the multi-pair call is all or nothing: the same arguments, nothing applied (`C06_rauw_many_atomic`) -/
+example : (rauwManyExact exW [0, 1] [4, 4] false).2 = .raised "ValueError" ∧ (rauwManyExact exW [0, 1] [4, 4] false).1 = exW := by
+  decide
+/-- a rejected view creation / a `KeyError` on a view's plain dict (`C06_view_atomic`) -/
+example : (viewStep { w := exW } (.newView [0] [1] [0] [4])).2 = .raised "ValueError" := by decide
+example : (viewStep (viewStep { w := exW } (.newView [0] [1] [0] [3])).1 (.initDel 0 "k")).2 = .raised "KeyError" := by decide
 /-- the rejected bulk update really was going to change something before its second entry -/
 example : (initUpdateSeq exW 0 [("a", 4), ("b", 4)]).1 ≠ exW := by decide
+
+/-! ### the partial fix proposed for D83 (`proposed_fixes/D83-partial.diff`, model `Model/KernelFix.lean`)
+
+Not property theorems (the function is compared with the code only once the patch is applied): the patched function
+keeps the invariant, and each of the hoisted rejections leaves the world untouched.  What is NOT hoisted (a name that
+cannot be copied, an unnamable output of a new node, an old node still in use) still raises after earlier writes:
+D83 stays a known finding. -/
+
+theorem replaceNodesAndValuesHoisted_WF (w : World) (g ip : Nat) (oldNodes newNodes oldVals newVals : List Nat)
+    (h : WF w) : WF (replaceNodesAndValuesHoisted w g ip oldNodes newNodes oldVals newVals).1 := by
+  unfold replaceNodesAndValuesHoisted
+  split
+  · exact h
+  · exact replaceNodesAndValuesExact_WF _ _ _ _ _ _ _ h
+
+theorem replaceNodesAndValuesHoisted_pre_atomic (w : World) (g ip : Nat) (oldNodes newNodes oldVals newVals : List Nat)
+    (h : rnvPreBad w g ip oldNodes newNodes oldVals newVals = true) :
+    replaceNodesAndValuesHoisted w g ip oldNodes newNodes oldVals newVals = (w, .raised "ValueError") := by
+  unfold replaceNodesAndValuesHoisted; simp [h]
+
+/-- the unpatched sequence raises at the insertion (`n1` is not in `g0`) AFTER the name was copied onto `v4`; the
+patched one refuses the same call before anything is written -/
+example : (replaceNodesAndValuesExact exW 0 1 [0] [] [1] [4]).2 = .raised "ValueError" ∧
+    (replaceNodesAndValuesExact exW 0 1 [0] [] [1] [4]).1 ≠ exW ∧
+    replaceNodesAndValuesHoisted exW 0 1 [0] [] [1] [4] = (exW, .raised "ValueError") := by decide
 
 end IrVerif.Kernel
